@@ -31,3 +31,26 @@ Example C07_klv_example : (* first packet of a 3-packet unit lost, then an intac
   outcomes (snd (dec_run dinit (tl (set_ts 1 (fst (enc 8 10 itemA))) ++ set_ts 2 (fst (enc 8 13 itemB)) ++ set_ts 3 (fst (enc 8 16 itemA)))))
   = [DErr; DErr; DMore; DMore; DFrame itemB; DMore; DMore; DFrame itemA].
 Proof. vm_compute. reflexivity. Qed.
+
+(* ---- the translated kernels (tools/go2coq, regenerated from the Go source on every run) ----
+   The continuity tests of rtpklv/decoder.go - expectedSeq := d.lastSeqNum + 1 (uint16 wrap-around), seqNum !=
+   expectedSeq, timestamp != d.currentTimestamp - ARE the tests of Model.dec: negb (pseq p =? seq_next (dlast d)),
+   negb (pts p =? dts d). *)
+From Coq Require Import ZArith.
+From GVG Require Import Kern.
+From GV_klv Require Import BridgeLib Bridge.
+Open Scope Z_scope.
+
+Theorem C07_klv_kernels_are_the_code : forall (seq last ts cur : N), u16 seq -> u16 last ->
+  k_klv_dec_expseq (Z.of_N last) = Z.of_N (seq_next last) /\
+  k_klv_dec_gap (Z.of_N seq) (k_klv_dec_expseq (Z.of_N last)) = negb (seq =? seq_next last)%N /\
+  k_klv_dec_tschange (Z.of_N ts) (Z.of_N cur) = negb (ts =? cur)%N.
+Proof. exact resync_kernels_are_the_code. Qed.
+Print Assumptions C07_klv_kernels_are_the_code.
+
+(* 0 follows 65535; 1 after 65535 is a gap; equal timestamps continue a unit, different ones do not *)
+Example C07_klv_example_kernels :
+  k_klv_dec_expseq 65535 = 0 /\ k_klv_dec_gap 0 (k_klv_dec_expseq 65535) = false /\
+  k_klv_dec_gap 1 (k_klv_dec_expseq 65535) = true /\ k_klv_dec_gap 7 (k_klv_dec_expseq 7) = true /\
+  k_klv_dec_tschange 90000 90000 = false /\ k_klv_dec_tschange 90001 90000 = true.
+Proof. vm_compute. repeat split. Qed.
